@@ -17,5 +17,6 @@ b=$(go test -vet=off -count=1 -timeout ${DEMO_TIMEOUT:-300s} ${DEMO_FLAGS:-} -ru
 echo "PATCHED demo rc=$rcb"; echo "$b" | grep -E "^\s+\S+\.go:[0-9]+:|FAIL|panic" | head -8
 rm -f "$wt/$dest"
 s=$(/verif/baseline.py $wt 2>&1); rcs=$?
+if [ $rcs -ne 0 ]; then echo "suite run 1: $(echo "$s" | head -3 | tr '\n' ' ') -- repeating once (timing sensitive tests fail under load)"; s=$(/verif/baseline.py $wt 2>&1); rcs=$?; fi
 echo "SUITE with patch rc=$rcs: $(echo "$s" | head -4 | tr '\n' ' ')"
 [ $rca -eq 0 ] && [ $rcb -ne 0 ] && [ $rcs -eq 0 ] && echo CONFIRMED || echo NOT-CONFIRMED
